@@ -134,7 +134,7 @@ func (g *Group[T]) Use(m ...types.Middleware[T]) {
 }
 
 // Routers 返回路由列表
-func (g *Group[T]) Routers() []*Router[T] { return g.routers }
+func (g *Group[T]) Routers() []*Router[T] { return slices.Clone(g.routers) } // 返回的是副本，调用方对其排序或是修改不影响匹配顺序。
 
 func (g *Group[T]) Remove(name string) {
 	g.routers = slices.DeleteFunc(g.routers, func(r *Router[T]) bool { return r.Name() == name })
